@@ -65,6 +65,7 @@ that does not exist is `NoSuchBucket`, not `NoSuchKey`; 0f31b61 delete_objects o
 4609ab3 operations on an upload that does not exist answer `NoSuchUpload`;
 205d9a8 upload_part and upload_part_copy refuse a part number outside 1..10000;
 47e9b00 complete_multipart_upload replaces the metadata and the checksum record of the object it replaces;
+9bdb75f complete_multipart_upload into a bucket that no longer exists is `NoSuchBucket` and does not recreate the bucket;
 8faafe7 copy_object gives the destination the metadata and the checksum record of the source, or none;
 c55c267 delete_objects reports every requested key as deleted and accepts a key named twice;
 764f144 list_parts returns the parts in ascending part-number order;
@@ -262,6 +263,22 @@ theorem C18_fixed_stale_sidefiles_after_complete :
     Same [.createBucket bka, .putObject bka kA [1] mdV { crc32 := some [1] } none,
       .createMultipartUpload alice bka kA (some [([116], [117])]), .uploadPart alice bka kA (some 1) 1 [2],
       .completeMultipartUpload alice bka kA (some 1) (some [some 1]), .getObject bka kA none] := by decide
+
+/-- was fs:complete-into-missing-bucket (the witness history of `corpus/fs.txt`, then continued): the bucket is deleted while
+    an upload for it is open; the complete is `NoSuchBucket` on both sides, the bucket is not recreated (head_bucket:
+    `NoSuchBucket`) and the upload stays: once the bucket exists again the same request succeeds and the object can be read.
+    The validation comes first on both sides: with a part that was never uploaded the answer is `InvalidPart` -/
+theorem C18_fixed_complete_into_missing_bucket :
+    Same [.createBucket bka, .createMultipartUpload alice bka kA none, .uploadPart alice bka kA (some 1) 1 [1],
+      .deleteBucket bka, .completeMultipartUpload alice bka kA (some 1) (some [some 1]), .headBucket bka, .listBuckets,
+      .completeMultipartUpload alice bka kA (some 1) (some [some 1, some 2]),
+      .createBucket bka, .completeMultipartUpload alice bka kA (some 1) (some [some 1]), .getObject bka kA none] ∧
+    (run H0 0 {} [.createBucket bka, .createMultipartUpload alice bka kA none, .uploadPart alice bka kA (some 1) 1 [1],
+      .deleteBucket bka, .completeMultipartUpload alice bka kA (some 1) (some [some 1]), .headBucket bka, .listBuckets,
+      .completeMultipartUpload alice bka kA (some 1) (some [some 1, some 2]),
+      .createBucket bka, .completeMultipartUpload alice bka kA (some 1) (some [some 1]), .getObject bka kA none]).2 =
+      [.ok, .created 1, .part (some (etagOf H0 [1])), .ok, .err .NoSuchBucket, .err .NoSuchBucket, .buckets [],
+       .err .InvalidPart, .ok, .completed (some (etagOf H0 [1])), .get [1] 1 none (some (etagOf H0 [1])) [] {}] := by decide
 
 /-- was fs:stale-metadata-after-copy and fs:stale-checksum-after-copy (the witness histories of `corpus/fs.txt` first): a copy
     from a source without metadata / without a recorded checksum over an object that has one: the object read afterwards has
